@@ -287,14 +287,22 @@ def addGenerator (x : FPoly) (k : GKindA) (g : Row) : FPoly :=
     let cp : Row := ({ g with eps := 0 } : Row).normalize
     if r.1 then
       let gs0 : Sys := Sys.clear
-      let gs := if x.nnc then (gs0.insertRow true true cp).insertRow true true g else gs0.insertRow true false g
+      -- NNC: `insert(g)`, the inserted row is turned into the closure point IN PLACE (the `sorted` flag is
+      -- not re-examined), `insert(g)` again
+      let gs := if x.nnc then
+          let s1 := gs0.insertRow true true g
+          ({ s1 with rows := s1.rows.dropLast ++ [cp] } : Sys).insertRow true true g
+        else gs0.insertRow true false g
       { x with p := { x.p with gs := gs, st := { x.p.st with empty := false, gUp := true, gMin := true } } }
     else
       if x.st.canPend then
         let gs := if x.nnc && isPt then (x.p.gs.insertPendingRow cp).insertPendingRow g else x.p.gs.insertPendingRow g
         { x with p := { x.p with gs := gs, st := { x.p.st with gPend := true } } }
       else
-        let gs := if x.nnc && isPt then ((x.p.gs.insertRow true x.nnc cp).insertRow true x.nnc g) else x.p.gs.insertRow true x.nnc g
+        let gs := if x.nnc && isPt then
+            let s1 := x.p.gs.insertRow true x.nnc g
+            ({ s1 with rows := s1.rows.dropLast ++ [cp] } : Sys).insertRow true x.nnc g
+          else x.p.gs.insertRow true x.nnc g
         { x with p := { x.p with gs := gs, st := ({ x.p.st with gMin := false }).clearCUp } }
 
 /-! ## the operators of C02 stage 2, prepared -/
@@ -590,7 +598,13 @@ def mapSpaceDimensions (x : FPoly) (f : List (Option Nat)) : FPoly :=
       let r := if r.1 && !r.2.st.gUp then r.2.updateGenerators else r
       if !r.1 then { r.2 with p := { r.2.p with dim := 0, cs := Sys.clear } }
       else r.2.setZeroDimUniv
-  else x.liftO (x.p.map_space_dimensions f)
+  else
+    -- every cycle, the trivial ones included, ends with `permute_space_dimensions(cycle)` on whatever is up
+    -- to date, and that clears `sorted` (Linear_System_inlines.hh:667)
+    let q := x.liftO (x.p.map_space_dimensions f)
+    if x.st.empty then q
+    else { q with p := { q.p with cs := if x.st.cUp then { q.p.cs with sorted := false } else q.p.cs,
+                                  gs := if x.st.gUp then { q.p.gs with sorted := false } else q.p.gs } }
 
 end FPoly
 end PPLV.PolyFull
